@@ -113,12 +113,22 @@ META['C13'] = dict(
         "Tie/oracle: ALL operation sequences up to length 3 (4 thorough) over a 10-op alphabet x no fault / every single / every pair of failing calls, plus 1500/30000 random longer sequences with up to 3 faults, on the real wrapper over the fake and on the model, every result, the begin/commit/rollback log, committed table and open flag compared."),
   note=("Trusted: Lean kernel + standard axioms; the hand-written wrapper model and the abstract driver (which specifies the harness's in-process fake, not a PostgreSQL server); harness. pgDb.multi is never cleared by Stop (test-endorsed), so single-operation clauses are for handles never put into explicit mode. Dump is not modelled."))
 
+META['C16'] = dict(
+  text=("Kernel-checked end to end (assemble_faithful): for EVERY program of documented line forms with safe arguments, in any layout (blank runs, trailing blanks/comments, CR/LF line ends with blank lines), batch lines last, the model of asm.Parse - "
+        "participle lexer (lex_text: a well-formed, separated token list is lexed back from its text), struct-tag grammar, numeric conversion (parseUint0_fmtUint), parseOne, MenuAdd, ToLines - succeeds and writes exactly the encodings of the "
+        "instructions written, one per line, in order, batch lines expanded to MOUT/MNEXT/MPREV.. HALT INCMP..; composed with C14 the decoder returns exactly those instructions (assemble_decodes). Outside the safe domain the property is false: nine kernel-evaluated "
+        "witnesses (leading-zero and digit-led selectors altered, nil dereference, upper-case-led names and big numeric selectors refused, octal sizes), five open known findings; two fix: commits for over-long strings. "
+        "Tie/oracle: 14k/200k sources (valid programs with one risk feature each, layout variants, token soup) through asm.Parse and the model, bytes compared; lexer compared token by token with a participle lexer built from the source's rules; strconv conversions compared; "
+        "an independent Go reading of every documented-valid source with its own encoder decides altered / refused / panic per line."),
+  note=("Trusted: Lean kernel + standard axioms; hand-written model of participle v2.0.0 for this grammar (rule patterns, struct tags, elided types regenerated from asm/asm.go and pinned); the documented grammar transcribed by hand twice (Lean spec, Go oracle); harness. "
+        "dev/asm preprocessor not modelled."))
+
 NOT_APPLICABLE = {
 
 
 
  'C09': 'not claimed yet: under construction',
  'C12': 'not claimed yet: under construction',
- 'C16': 'not claimed yet: under construction',
+
  'C19': 'not claimed yet: under construction',
 }
